@@ -4,6 +4,7 @@ import (
 	"bytes"
 	"fmt"
 	"math/rand"
+	"reflect"
 	"runtime"
 	"sort"
 	"strconv"
@@ -25,7 +26,11 @@ import (
 // C14: the in-memory table (leveldb/memdb).
 //
 // (a) State-machine differential through the public API against (1) a sorted-slice oracle kept here and
-//     (2) the Lean model GoLevel.MemDB via `mem …` lines (Driver/Mem.lean).
+//     (2) the Lean model GoLevel.MemDB via `mem …` lines (Driver/Mem.lean) and (3) the array-level Lean model
+//     GoLevel.MemArr via `mem arr …` lines: every line goes to both with the same expected answer; the array model
+//     is additionally compared with the private arrays of the Go table (nodeData, kvData, prevNode, maxHeight and
+//     the node index held by every iterator, read through reflect), and at the end of every case it is asked for
+//     the moves the ideal model cannot answer (Next/Prev from a node that has just been deleted).
 // (b) Concurrency oracle: one writer (Put only) and several readers/iterators.
 
 func init() { Registry["C14"] = runC14 }
@@ -43,7 +48,7 @@ const (
 type c14Heights struct{ rnd *rand.Rand }
 
 func newC14Heights() *c14Heights { return &c14Heights{rand.New(rand.NewSource(c14Seed))} }
-func (h *c14Heights) reset()      { h.rnd = rand.New(rand.NewSource(c14Seed)) }
+func (h *c14Heights) reset()     { h.rnd = rand.New(rand.NewSource(c14Seed)) }
 func (h *c14Heights) draw() int {
 	n := 1
 	for n < c14MaxHeight && h.rnd.Int()%c14Branching == 0 {
@@ -146,8 +151,12 @@ func (o *c14Oracle) move(x *c14Iter, m string, k []byte) *c14Pair {
 		x.pos, x.key = c14At, ps[i].k
 		return &ps[i]
 	}
-	geq := func(k []byte) int { return sort.Search(len(ps), func(i int) bool { return o.cmp.Compare(ps[i].k, k) >= 0 }) }
-	gt := func(k []byte) int { return sort.Search(len(ps), func(i int) bool { return o.cmp.Compare(ps[i].k, k) > 0 }) }
+	geq := func(k []byte) int {
+		return sort.Search(len(ps), func(i int) bool { return o.cmp.Compare(ps[i].k, k) >= 0 })
+	}
+	gt := func(k []byte) int {
+		return sort.Search(len(ps), func(i int) bool { return o.cmp.Compare(ps[i].k, k) > 0 })
+	}
 	switch m {
 	case "first":
 		return set(0, c14EOI)
@@ -204,6 +213,37 @@ func c14OptHex(b []byte) string {
 	return gen.Hex(b)
 }
 
+
+// c14ArrState renders the private state of a memdb.DB the way `mem arr state` does (Driver/Mem.lean):
+// counters, len and FNV-1a/64 of kvData, nodeData and prevNode.  Read-only use of reflect on unexported fields.
+func c14ArrState(db *memdb.DB) string {
+	v := reflect.ValueOf(db).Elem()
+	fnv := func(f reflect.Value, byteElems bool) (int, uint64) {
+		h := uint64(14695981039346656037)
+		n := f.Len()
+		for i := 0; i < n; i++ {
+			var x uint64
+			if byteElems {
+				x = f.Index(i).Uint()
+			} else {
+				x = uint64(f.Index(i).Int())
+			}
+			h = (h ^ x) * 1099511628211
+		}
+		return n, h
+	}
+	kn, kh := fnv(v.FieldByName("kvData"), true)
+	nn, nh := fnv(v.FieldByName("nodeData"), false)
+	_, ph := fnv(v.FieldByName("prevNode"), false)
+	return fmt.Sprintf("n=%d size=%d mh=%d kv=%d:%016x nodes=%d:%016x prev=%016x",
+		v.FieldByName("n").Int(), v.FieldByName("kvSize").Int(), v.FieldByName("maxHeight").Int(), kn, kh, nn, nh, ph)
+}
+
+// c14IterNode returns dbIter.node of an iterator created by memdb.DB.NewIterator.
+func c14IterNode(it iterator.Iterator) int {
+	return int(reflect.ValueOf(it).Elem().FieldByName("node").Int())
+}
+
 // c14Diff runs one random op list.
 func c14Diff(c *Ctx, r *rng.R, caseNo int) {
 	id := c14CmpIDs[caseNo%len(c14CmpIDs)]
@@ -251,9 +291,15 @@ func c14Diff(c *Ctx, r *rng.R, caseNo int) {
 	var its []*c14Iter
 	nextID := 0
 	failed := false
+	// arr sends a line to the array-level model only
+	arr := func(op, expect string) {
+		c.Lean("mem arr "+op, expect)
+	}
+	// say sends a `mem …` line to the ideal model and the same line to the array-level model
 	say := func(op, expect string) {
 		cs.Lines = append(cs.Lines, op+"  => "+expect)
 		c.Lean(op, expect)
+		arr(strings.TrimPrefix(op, "mem "), expect)
 	}
 	bad := func(sig, msg string) {
 		failed = true
@@ -391,6 +437,7 @@ func c14Diff(c *Ctx, r *rng.R, caseNo int) {
 			say("mem len", strconv.Itoa(n))
 			say("mem size", strconv.Itoa(sz))
 			say("mem used", strconv.Itoa(ca-fr))
+			arr("state", c14ArrState(db))
 		case x < 71: // Reset and reuse
 			opName = "reset"
 			db.Reset()
@@ -403,6 +450,7 @@ func c14Diff(c *Ctx, r *rng.R, caseNo int) {
 			}
 			c.Res.Count("reset", "reset")
 			say("mem reset", "ok")
+			arr("state", c14ArrState(db))
 		case x < 75 && len(its) < 4: // NewIterator
 			opName = "newiter"
 			x := &c14Iter{id: nextID}
@@ -508,6 +556,7 @@ func c14Diff(c *Ctx, r *rng.R, caseNo int) {
 			x.moves++
 			c.Res.Count("move", m+map[bool]string{true: ":valid", false: ":invalid"}[ok])
 			say(line, exp)
+			arr(fmt.Sprintf("iter %d node", x.id), strconv.Itoa(c14IterNode(x.it)))
 		}
 		c.Res.Eval(fmt.Sprintf("%s/%s/%x/%d", id, opName, k, len(or.pairs)), nonEmpty)
 		c.Res.Count("op", opName)
@@ -517,11 +566,82 @@ func c14Diff(c *Ctx, r *rng.R, caseNo int) {
 			c.Res.Sample(map[string]interface{}{"cmp": id, "capacity": capacity, "len": len(or.pairs), "lines": append([]string(nil), cs.Lines[n-6:]...)})
 		}
 	}
+	if !failed {
+		arr("state", c14ArrState(db))
+		c14StaleEpilogue(c, r, db, or, arr, key, val, hs)
+	}
 	for _, x := range its {
 		x.it.Release()
 	}
 	c.Res.Count("comparer", id)
 	c.Res.Count("final-len", c14Bucket(len(or.pairs)))
+}
+
+
+// c14StaleEpilogue runs, at the end of a case, the moves that only the array-level model can answer: an iterator
+// is positioned on a node, the node is deleted (and sometimes keys are put around it), then Next/Prev are called.
+// The Go code follows the dead node's level-0 pointer (Next) or searches with the dead node's key (Prev); the
+// expected answers are whatever the Go table answers, the Lean array model must give the same and hold the same
+// node index and the same arrays.  The sorted-slice oracle adds what must hold whatever the contract says: a pair
+// yielded is a pair of the table at that moment, or the deleted pair's successor chain of the moment of deletion.
+func c14StaleEpilogue(c *Ctx, r *rng.R, db *memdb.DB, or *c14Oracle, arr func(op, expect string), key, val func() []byte, hs *c14Heights) {
+	if len(or.pairs) < 2 {
+		return
+	}
+	const id = 9999
+	it := db.NewIterator(nil)
+	defer it.Release()
+	arr(fmt.Sprintf("iter %d new nil nil", id), "ok")
+	show := func(ok bool) string {
+		if !ok {
+			return "false"
+		}
+		return "true " + gen.Hex(it.Key()) + " " + gen.Hex(it.Value())
+	}
+	rounds := 1 + r.Intn(3)
+	for n := 0; n < rounds && len(or.pairs) >= 2; n++ {
+		k := or.pairs[r.Intn(len(or.pairs))].k
+		ok := it.Seek(cp(k))
+		arr(fmt.Sprintf("iter %d seek %s", id, gen.Hex(k)), show(ok))
+		if !ok {
+			return
+		}
+		cur := cp(it.Key())
+		if err := db.Delete(cp(cur)); err != nil {
+			c.Res.Violate("memdb.Delete:error", err.Error(), nil)
+			return
+		}
+		or.del(cur)
+		arr("del "+gen.Hex(cur), "ok")
+		for m := r.Intn(3); m > 0; m-- { // keys put while the iterator sits on the dead node
+			pk, pv := key(), val()
+			if err := db.Put(cp(pk), cp(pv)); err != nil {
+				c.Res.Violate("memdb.Put:error", err.Error(), nil)
+				return
+			}
+			h := 0
+			if or.put(pk, pv) {
+				h = hs.draw()
+			}
+			arr(fmt.Sprintf("put %s %s %d", gen.Hex(pk), gen.Hex(pv), h), "ok")
+		}
+		steps := 1 + r.Intn(3)
+		for m := 0; m < steps; m++ {
+			mv := "next"
+			if r.Chance(1, 3) {
+				mv = "prev"
+			}
+			if mv == "next" {
+				ok = it.Next()
+			} else {
+				ok = it.Prev()
+			}
+			c.Res.Count("stale-move", mv+map[bool]string{true: ":valid", false: ":invalid"}[ok])
+			arr(fmt.Sprintf("iter %d %s", id, mv), show(ok))
+			arr(fmt.Sprintf("iter %d node", id), strconv.Itoa(c14IterNode(it)))
+		}
+		arr("state", c14ArrState(db))
+	}
 }
 
 func c14Bucket(n int) string {
@@ -543,17 +663,38 @@ func c14Bucket(n int) string {
 // ---- (b) concurrency -------------------------------------------------------------------------
 
 // value layout: <key hex>#<version>#<padding>; the version counter of a key increases with every Put.
+// value layout: <key hex>#<version>#<padding length>#<padding>$ — every byte is checked, so a value assembled from
+// the offset of one version and the length of another is recognised.
 func c14Val(k []byte, ver int, pad int) []byte {
-	return []byte(fmt.Sprintf("%x#%d#%s", k, ver, strings.Repeat("p", pad)))
+	return []byte(fmt.Sprintf("%x#%d#%d#%s$", k, ver, pad, strings.Repeat("p", pad)))
 }
 
 func c14ParseVal(v []byte) (khex string, ver int, ok bool) {
-	parts := strings.SplitN(string(v), "#", 3)
-	if len(parts) != 3 {
+	parts := strings.SplitN(string(v), "#", 4)
+	if len(parts) != 4 {
 		return "", 0, false
 	}
 	n, err := strconv.Atoi(parts[1])
-	return parts[0], n, err == nil
+	pl, err2 := strconv.Atoi(parts[2])
+	if err != nil || err2 != nil || parts[3] != strings.Repeat("p", pl)+"$" {
+		return parts[0], n, false
+	}
+	return parts[0], n, true
+}
+
+// c14YieldCmp yields the processor inside every few comparisons: memdb calls the comparer between reading a
+// node's key and its value (range check in fill) and inside every search, so a movement that is not one
+// critical section gets interleaved with the writer.
+type c14YieldCmp struct {
+	comparer.BasicComparer
+	n *uint32
+}
+
+func (y c14YieldCmp) Compare(a, b []byte) int {
+	if atomic.AddUint32(y.n, 1)%3 == 0 {
+		runtime.Gosched()
+	}
+	return y.BasicComparer.Compare(a, b)
 }
 
 type c14Conc struct {
@@ -562,6 +703,7 @@ type c14Conc struct {
 	Keys    int    `json:"keys"`
 	Puts    int    `json:"puts"`
 	Cmp     string `json:"cmp"`
+	Hot     bool   `json:"hot"`
 }
 
 func c14Concurrent(c *Ctx, r *rng.R, round int) {
@@ -570,7 +712,17 @@ func c14Concurrent(c *Ctx, r *rng.R, round int) {
 	nread := 4 + r.Intn(13)
 	cmpID := []string{"bytewise", "lenfirst"}[round%2]
 	cmp := c14Cmp(cmpID)
-	rp := &c14Conc{Seed: c.Seed, Readers: nread, Keys: nkeys, Puts: nputs, Cmp: cmpID}
+	// every third round: a handful of keys overwritten all the time with values of very different lengths,
+	// a comparer that yields, iterators with a limit (the comparer then runs inside every movement)
+	hot := round%3 == 2
+	maxPad := 12
+	if hot {
+		nkeys = 3 + r.Intn(14)
+		nputs = c.Scale(30000, 120000)
+		maxPad = 300
+		cmp = c14YieldCmp{cmp, new(uint32)}
+	}
+	rp := &c14Conc{Seed: c.Seed, Readers: nread, Keys: nkeys, Puts: nputs, Cmp: cmpID, Hot: hot}
 	db := memdb.New(cmp, r.Pick(0, 256, 1<<20))
 	keys := make([][]byte, nkeys)
 	index := map[string]int{}
@@ -639,7 +791,7 @@ func c14Concurrent(c *Ctx, r *rng.R, round int) {
 			i := wr.Intn(nkeys)
 			vers[i]++
 			atomic.StoreInt32(&started[i], int32(vers[i]))
-			if err := db.Put(keys[i], c14Val(keys[i], vers[i], wr.Intn(12))); err != nil {
+			if err := db.Put(keys[i], c14Val(keys[i], vers[i], wr.Intn(maxPad))); err != nil {
 				violate("put-error", err.Error())
 			}
 			if vers[i] == 1 {
@@ -708,7 +860,11 @@ func c14Concurrent(c *Ctx, r *rng.R, round int) {
 				default: // iterator walk
 					var rg *util.Range
 					var start, limit []byte
-					if rr.Chance(1, 2) {
+					if hot {
+						// a limit above every key: nothing is cut off, the range check still runs
+						limit = bytes.Repeat([]byte{0xff}, 12)
+						rg = &util.Range{Limit: limit}
+					} else if rr.Chance(1, 2) {
 						start, limit = keys[rr.Intn(nkeys)], keys[rr.Intn(nkeys)]
 						if cmp.Compare(start, limit) > 0 {
 							start, limit = limit, start
@@ -828,7 +984,7 @@ func c14Concurrent(c *Ctx, r *rng.R, round int) {
 }
 
 func runC14(c *Ctx) {
-	c.Res.Rule = "(a) random op lists on memdb.New(cmp, capacity) for bytewise/lenfirst/reverse user comparers and the internal-key comparer over them: Put (new keys and overwrites that change the value length; arguments poisoned afterwards), Delete of present/absent keys, Get/Find/Contains, Len/Size/Capacity-Free, Reset and reuse, up to 4 live iterators (nil range, half-open, inverted and empty ranges) moved at random BETWEEN the mutations; every answer is compared with a sorted-slice oracle kept in Go (key-based cursor for iterators) and, line by line, with the Lean model (tower heights reproduced from memdb's fixed seed). Not generated because the contract does not cover it: Next on an iterator whose current node was deleted, Next/Prev on an iterator after Reset (both are re-positioned by First/Last/Seek first). One evaluation per op; non-trivial = the table was non-empty when the op ran; distinct by (comparer, op, key, table size). (b) one writer (Put of new keys and overwrites, values carry key and version) with 4-16 reader goroutines doing Get/Find and ranged iterator walks: no panic, Next strictly increasing, Prev strictly decreasing, inside the range, every pair yielded was issued by the writer with that version, versions read by Get never go back, a full scan misses no key stored before it began, final contents exact. One evaluation per run; non-trivial = iterators yielded pairs while the writer ran. The race detector is not available inside vh (no -race build of the harness): data races that do not corrupt an answer are not detected here."
+	c.Res.Rule = "(a) random op lists on memdb.New(cmp, capacity) for bytewise/lenfirst/reverse user comparers and the internal-key comparer over them: Put (new keys and overwrites that change the value length; arguments poisoned afterwards), Delete of present/absent keys, Get/Find/Contains, Len/Size/Capacity-Free, Reset and reuse, up to 4 live iterators (nil range, half-open, inverted and empty ranges) moved at random BETWEEN the mutations; every answer is compared with a sorted-slice oracle kept in Go (key-based cursor for iterators) and, line by line, with the ideal Lean model and with the array-level Lean model GoLevel.MemArr (tower heights reproduced from memdb's fixed seed); the array-level model is also compared with the private arrays of the table (n, kvSize, maxHeight, len and FNV of kvData/nodeData/prevNode after every Len/Reset and at the end of the case; the node index of the iterator after every move), and at the end of every case it answers Next/Prev from a node that was just deleted (expected = what the Go iterator does). Not generated because the contract does not cover it: Next on an iterator whose current node was deleted, Next/Prev on an iterator after Reset (both are re-positioned by First/Last/Seek first). One evaluation per op; non-trivial = the table was non-empty when the op ran; distinct by (comparer, op, key, table size). (b) one writer (Put of new keys and overwrites, values carry key and version) with 4-16 reader goroutines doing Get/Find and ranged iterator walks: no panic, Next strictly increasing, Prev strictly decreasing, inside the range, every pair yielded was issued by the writer with that version, versions read by Get never go back, a full scan misses no key stored before it began, final contents exact. One evaluation per run; non-trivial = iterators yielded pairs while the writer ran. The race detector is not available inside vh (no -race build of the harness): data races that do not corrupt an answer are not detected here."
 	ncases := c.Scale(4000, 24000)
 	for i := 0; i < ncases && c.TimeLeft(); i++ {
 		r := c.R.Fork()
